@@ -114,7 +114,7 @@ def _get_channel_labels(sr, num_snippets=20, verbose=True):
     for i in trange(num_snippets):
         s0 = start[i]
         s1 = end[i]
-        arr = sr[s0:s1, : -sr.nsync].T
+        arr = sr[s0:s1, : sr.nc - sr.nsync].T
         _channel_labels[:, i] = detect_bad_channels(arr, fs=30_000)[0]
 
     channel_labels = scipy.stats.mode(_channel_labels, axis=1, keepdims=True)[0].T
@@ -221,7 +221,7 @@ def write_wfs_chunk(
     df = pd.DataFrame({"sample": sample, "peak_channel": peak_channel})
 
     snip = my_sr[
-        s0 - offset:s1 + spike_length_samples - trough_offset, :-my_sr.nsync
+        s0 - offset:s1 + spike_length_samples - trough_offset, :my_sr.nc - my_sr.nsync
     ].T
 
     if "butterworth" in preprocess_steps:
